@@ -18,6 +18,8 @@ import Mathlib.Algebra.BigOperators.Group.Finset.Basic
 import Mathlib.Algebra.BigOperators.Ring.Finset
 import Mathlib.Algebra.BigOperators.Intervals
 import Mathlib.Tactic.Ring
+import Mathlib.Tactic.FieldSimp
+import Mathlib.Tactic.LinearCombination
 set_option linter.unusedSectionVars false
 set_option linter.unusedVariables false
 set_option linter.unusedSimpArgs false
@@ -41,6 +43,44 @@ theorem bind_ok_of {α β : Type} {x : Res α} {g : α → Res β} {Q : β → P
     ∃ b, (x >>= g) = .ok b ∧ Q b := by
   obtain ⟨a, h1, h2⟩ := hx
   rw [h1]; exact hg a h2
+
+theorem foldlM_range'_error_at {σ : Type} (P : Nat → σ → Prop) (f : σ → Nat → Res σ) (e : Err) (r : Nat) :
+    ∀ (d lo : Nat) (s : σ), P lo s →
+      (∀ i s, lo ≤ i → i < lo + d → P i s → ∃ s', f s i = .ok s' ∧ P (i + 1) s') →
+      (∀ s, P (lo + d) s → f s (lo + d) = .error e) →
+      (List.range' lo (d + 1 + r)).foldlM f s = .error e
+  | 0, lo, s, h0, _, hf => by
+    have := hf s (by simpa using h0)
+    rw [show 0 + 1 + r = r + 1 by omega]
+    simp only [List.range', List.foldlM_cons, bind, Except.bind]
+    simp at this
+    rw [this]
+  | d + 1, lo, s, h0, hstep, hf => by
+    obtain ⟨s1, h1, p1⟩ := hstep lo s (Nat.le_refl _) (by omega) h0
+    rw [show d + 1 + 1 + r = (d + 1 + r) + 1 by omega]
+    simp only [List.range', List.foldlM_cons, h1, bind, Except.bind]
+    exact foldlM_range'_error_at P f e r d (lo + 1) s1 p1
+      (fun i s hi1 hi2 hp => hstep i s (by omega) (by omega) hp)
+      (fun s hp => by
+        have e1 : lo + 1 + d = lo + (d + 1) := by omega
+        rw [e1] at hp ⊢; exact hf s hp)
+
+/-- a loop whose iterations `lo .. mid-1` succeed (invariant `P`) and whose iteration `mid < hi`
+    fails, fails with that error -/
+theorem Mat.forM'_error_at {σ : Type} (P : Nat → σ → Prop) (lo mid hi : Nat) (s : σ)
+    (f : σ → Nat → Res σ) (e : Err) (h1 : lo ≤ mid) (h2 : mid < hi) (h0 : P lo s)
+    (hstep : ∀ i s, lo ≤ i → i < mid → P i s → ∃ s', f s i = .ok s' ∧ P (i + 1) s')
+    (hfail : ∀ s, P mid s → f s mid = .error e) : Mat.forM' lo hi s f = .error e := by
+  unfold Mat.forM'
+  have e1 : hi - lo = (mid - lo) + 1 + (hi - mid - 1) := by omega
+  rw [e1]
+  apply foldlM_range'_error_at P f e _ (mid - lo) lo s h0
+  · intro i s hi1 hi2 hp; exact hstep i s hi1 (by omega) hp
+  · intro s hp
+    have e2 : lo + (mid - lo) = mid := by omega
+    rw [e2] at hp ⊢; exact hfail s hp
+theorem bind_error {α β : Type} {x : Res α} {g : α → Res β} {e : Err} (h : x = .error e) :
+    (x >>= g) = .error e := by rw [h]; rfl
 
 theorem usub_ok {a b : Nat} (h : b ≤ a) : usub a b = .ok (a - b) := by simp [usub, h]
 
@@ -84,6 +124,86 @@ theorem foldlM_rev_inv {σ : Type} (Q : Nat → σ → Prop) (f : σ → Nat →
     simp only [List.reverse_cons, List.reverse_nil, List.nil_append, List.cons_append,
       List.foldlM_cons, h1, bind, Except.bind]
     exact h2
+
+/-! ### relational reasoning on `Res` (two runs in lock-step) -/
+
+/-- both computations succeed with related values, or both panic with the same class -/
+def RelRes {α β : Type} (R : α → β → Prop) : Res α → Res β → Prop
+  | .ok a, .ok b => R a b
+  | .error e, .error e' => e = e'
+  | _, _ => False
+
+theorem RelRes.ok {α β : Type} {R : α → β → Prop} {a : α} {b : β} (h : R a b) :
+    RelRes R (.ok a) (.ok b) := h
+
+theorem RelRes.err {α β : Type} {R : α → β → Prop} (e : Err) :
+    RelRes R (.error e : Res α) (.error e : Res β) := rfl
+
+theorem RelRes.bind {α β γ δ : Type} {R : α → β → Prop} {Q : γ → δ → Prop} {x : Res α}
+    {y : Res β} {f : α → Res γ} {g : β → Res δ} (h : RelRes R x y)
+    (hfg : ∀ a b, R a b → RelRes Q (f a) (g b)) : RelRes Q (x >>= f) (y >>= g) := by
+  cases x with
+  | error e =>
+    cases y with
+    | error e' => exact h
+    | ok b => exact h.elim
+  | ok a =>
+    cases y with
+    | error e' => exact h.elim
+    | ok b => exact hfg a b h
+
+theorem RelRes.mono {α β : Type} {R Q : α → β → Prop} {x : Res α} {y : Res β} (h : RelRes R x y)
+    (hRQ : ∀ a b, R a b → Q a b) : RelRes Q x y := by
+  cases x <;> cases y <;> first | exact h | exact hRQ _ _ h
+
+theorem RelRes.eq {α : Type} {x y : Res α} (h : RelRes (· = ·) x y) : x = y := by
+  cases x <;> cases y
+  · exact congrArg _ h
+  · exact h.elim
+  · exact h.elim
+  · exact congrArg _ h
+
+theorem RelRes.refl {α : Type} (x : Res α) : RelRes (· = ·) x x := by
+  cases x <;> rfl
+
+/-- relational loop rule -/
+theorem Mat.forM'_rel {σ τ : Type} (R : Nat → σ → τ → Prop) (lo hi : Nat) (s : σ) (t : τ)
+    (f : σ → Nat → Res σ) (g : τ → Nat → Res τ) (hle : lo ≤ hi) (h0 : R lo s t)
+    (hstep : ∀ i s t, lo ≤ i → i < hi → R i s t → RelRes (R (i + 1)) (f s i) (g t i)) :
+    RelRes (R hi) (Mat.forM' lo hi s f) (Mat.forM' lo hi t g) := by
+  unfold Mat.forM'
+  have key : ∀ (d lo : Nat) (s : σ) (t : τ), lo + d = hi → R lo s t →
+      (∀ i s t, lo ≤ i → i < hi → R i s t → RelRes (R (i + 1)) (f s i) (g t i)) →
+      RelRes (R hi) ((List.range' lo d).foldlM f s) ((List.range' lo d).foldlM g t) := by
+    intro d
+    induction d with
+    | zero =>
+      intro lo s t e h0 _
+      simp only [List.range'_zero, List.foldlM_nil]
+      have : lo = hi := by omega
+      subst this; exact h0
+    | succ d ih =>
+      intro lo s t e h0 hs
+      simp only [List.range'_succ, List.foldlM_cons]
+      exact RelRes.bind (hs lo s t (Nat.le_refl _) (by omega) h0)
+        (fun a b hab => ih (lo + 1) a b (by omega) hab
+          (fun i s t h1 h2 h3 => hs i s t (by omega) h2 h3))
+  exact key (hi - lo) lo s t (by omega) h0 hstep
+
+/-- relational rule for the descending loop -/
+theorem foldlM_rev_rel {σ τ : Type} (R : Nat → σ → τ → Prop) (f : σ → Nat → Res σ)
+    (g : τ → Nat → Res τ) :
+    ∀ (m : Nat) (s : σ) (t : τ), R m s t →
+      (∀ j s t, j < m → R (j + 1) s t → RelRes (R j) (f s j) (g t j)) →
+      RelRes (R 0) ((List.range m).reverse.foldlM f s) ((List.range m).reverse.foldlM g t)
+  | 0, s, t, h0, _ => h0
+  | m + 1, s, t, h0, hstep => by
+    rw [List.range_succ, List.reverse_append]
+    simp only [List.reverse_cons, List.reverse_nil, List.nil_append, List.cons_append,
+      List.foldlM_cons]
+    exact RelRes.bind (hstep m s t (by omega) h0)
+      (fun a b hab => foldlM_rev_rel R f g m a b hab
+        (fun j s t hj hr => hstep j s t (by omega) hr))
 
 namespace Mat
 variable {K : Type}
@@ -528,37 +648,83 @@ theorem shift_fill {au : Mat K} {n mm : Nat} {e : Nat → Nat → K} (h : Is au 
     exact ⟨s', hs', hI.congr (fun a b _ _ => by ifs_omega)⟩)
   exact ⟨au', h1, h2.congr (fun a b _ hb => by ifs_omega)⟩
 
+/-- body of the first phase of `decompose` -/
+def shiftBody (m1 m2 : Nat) (s : Mat K × Nat) (i : Nat) : Res (Mat K × Nat) := do
+  let au ← forM' (m1 - i) (m1 + m2 + 1) s.1 (fun au j => do
+    let x ← au.get i j
+    let c ← usub j s.2
+    au.set i c x)
+  let l ← usub s.2 1
+  let lo ← usub (m1 + m2 + 1 - l) 1
+  let au ← forM' lo (m1 + m2 + 1) au (fun au j => au.set i j 0)
+  pure (au, l)
+
+theorem shiftRows_eq (m1 m2 : Nat) (au : Mat K) :
+    shiftRows m1 m2 au = (do
+      let st ← forM' 0 m1 (au, m1) (shiftBody m1 m2)
+      pure st.1) := rfl
+
+/-- one iteration of the first phase (row `i < m1`, `i < n`) -/
+theorem shiftBody_step {n m1 m2 i : Nat} {c : Nat → Nat → K} {st : Mat K × Nat} (hi : i < m1)
+    (hin : i < n)
+    (hP : st.2 = m1 - i ∧
+      Is st.1 n (m1 + m2 + 1) (fun a b => if a < i then shifted m1 m2 c a b else c a b)) :
+    ∃ st', shiftBody m1 m2 st i = .ok st' ∧ st'.2 = m1 - (i + 1) ∧
+      Is st'.1 n (m1 + m2 + 1) (fun a b => if a < i + 1 then shifted m1 m2 c a b else c a b) := by
+  obtain ⟨au, l⟩ := st
+  obtain ⟨hl, hI⟩ := hP
+  simp only at hl hI
+  subst hl
+  obtain ⟨a1, g1, I1⟩ := shift_copy hI (i := i) (l := m1 - i) hin (by omega)
+  have u1 : usub (m1 - i) 1 = .ok (m1 - i - 1) := usub_ok (by omega)
+  have u2 : usub (m1 + m2 + 1 - (m1 - i - 1)) 1 = .ok (m1 + m2 + 1 - (m1 - i)) := by
+    rw [usub_ok (by omega)]; congr 1; omega
+  obtain ⟨a2, g2, I2⟩ := shift_fill I1 (i := i) (lo := m1 + m2 + 1 - (m1 - i)) hin (by omega)
+  refine ⟨(a2, m1 - i - 1), ?_, by simp only; omega, ?_⟩
+  · unfold shiftBody
+    simp only [bind, Except.bind, pure, Except.pure] at g1 g2 ⊢
+    simp only [g1, u1, u2, g2]
+  · refine I2.congr ?_
+    intro a b ha hb
+    unfold shifted
+    ifs_omega
+
 /-- (S) **first phase of `decompose`** (`m1 ≤ n`): succeeds, keeps the shape, row `i < m1` is
     shifted left by `m1 - i` and zero-filled on the right, every other row is unchanged -/
 theorem shiftRows_spec {au : Mat K} {n m1 m2 : Nat} {c : Nat → Nat → K}
     (h : Is au n (m1 + m2 + 1) c) (hm : m1 ≤ n) :
     ∃ au', shiftRows m1 m2 au = .ok au' ∧ Is au' n (m1 + m2 + 1) (shifted m1 m2 c) := by
-  unfold shiftRows
+  rw [shiftRows_eq]
   refine bind_ok_of (fun s => s.2 = m1 - m1 ∧
     Is s.1 n (m1 + m2 + 1) (fun a b => if a < m1 then shifted m1 m2 c a b else c a b)) ?_ ?_
-  · refine forM'_inv (fun i (s : Mat K × Nat) => s.2 = m1 - i ∧
+  · exact forM'_inv (fun i (s : Mat K × Nat) => s.2 = m1 - i ∧
       Is s.1 n (m1 + m2 + 1) (fun a b => if a < i then shifted m1 m2 c a b else c a b))
-      0 m1 _ _ (Nat.zero_le _) ⟨rfl, h.congr (fun a b _ _ => by simp)⟩ ?_
-    intro i s _ hi hs
-    obtain ⟨au, l⟩ := s
-    obtain ⟨hl, hI⟩ := hs
-    simp only at hl hI
-    subst hl
-    obtain ⟨a1, g1, I1⟩ := shift_copy hI (i := i) (l := m1 - i) (by omega) (by omega)
-    have u1 : usub (m1 - i) 1 = .ok (m1 - i - 1) := usub_ok (by omega)
-    have u2 : usub (m1 + m2 + 1 - (m1 - i - 1)) 1 = .ok (m1 + m2 + 1 - (m1 - i)) := by
-      rw [usub_ok (by omega)]; congr 1; omega
-    obtain ⟨a2, g2, I2⟩ := shift_fill I1 (i := i) (lo := m1 + m2 + 1 - (m1 - i))
-      (by omega) (by omega)
-    refine ⟨(a2, m1 - i - 1), ?_, by simp; omega, ?_⟩
-    · simp only [bind, Except.bind, pure, Except.pure] at g1 g2 ⊢
-      simp only [g1, u1, u2, g2]
-    · refine I2.congr ?_
-      intro a b ha hb
-      unfold shifted
-      ifs_omega
+      0 m1 _ _ (Nat.zero_le _) ⟨rfl, h.congr (fun a b _ _ => by simp)⟩
+      (fun i s _ hi hs => shiftBody_step hi (by omega) hs)
   · intro s hs
     exact ⟨s.1, rfl, hs.2.congr (fun a b _ _ => by unfold shifted; ifs_omega)⟩
+
+/-- (S) with more sub-diagonals than rows the first phase of `decompose` addresses row `n`: a
+    range panic -/
+theorem shiftRows_rejects {au : Mat K} {n m1 m2 : Nat} {c : Nat → Nat → K}
+    (h : Is au n (m1 + m2 + 1) c) (hm : n < m1) : shiftRows m1 m2 au = .error .range := by
+  rw [shiftRows_eq]
+  apply bind_error
+  apply Mat.forM'_error_at (fun i (s : Mat K × Nat) => s.2 = m1 - i ∧
+      Is s.1 n (m1 + m2 + 1) (fun a b => if a < i then shifted m1 m2 c a b else c a b))
+      0 n m1 _ _ _ (Nat.zero_le _) hm ⟨rfl, h.congr (fun a b _ _ => by simp)⟩
+      (fun i s _ hi hs => shiftBody_step (by omega) hi hs)
+  intro st ⟨hl, hI⟩
+  unfold shiftBody
+  apply bind_error
+  apply Mat.forM'_first_error _ _ _ _ _ (by omega)
+  apply bind_error
+  rw [Mat.get]
+  apply Mat.aget_err
+  have := hI.wf
+  rw [Mat.WF, hI.rows, hI.cols] at this
+  rw [this, hI.cols]
+  omega
 
 /-- without sub-diagonals the first phase does nothing -/
 theorem shiftRows_m1_zero (m2 : Nat) (au : Mat K) : shiftRows 0 m2 au = .ok au := by
@@ -704,6 +870,22 @@ theorem solve_upper_fwd {b : Band K} (rhs : Array K) (s : Dec K) (hsz : s.index.
   refine ⟨(x, l + 1), ?_, rfl, rfl⟩
   simp only [g1, usub_ok (show 1 ≤ l + 1 by omega), Nat.add_sub_cancel, if_neg hkk, if_pos hk,
     Mat.forM'_empty _ _ _ _ (Nat.le_refl _), bind, Except.bind, pure, Except.pure]
+
+/-- (S) more sub-diagonals than rows: `decompose` (hence `det` and `solve`) panics -/
+theorem decompose_rejects {b : Band K} (h : WFb b) (hm : b.n < b.m1) :
+    decompose b = .error .range := by
+  unfold decompose
+  exact bind_error (shiftRows_rejects h.is hm)
+
+theorem det_rejects {b : Band K} (h : WFb b) (hm : b.n < b.m1) : det b = .error .range := by
+  unfold det
+  exact bind_error (decompose_rejects h hm)
+
+theorem solve_rejects_m1 {b : Band K} (h : WFb b) (hm : b.n < b.m1) (rhs : Array K)
+    (hr : rhs.size = b.n) : solve b rhs = .error .range := by
+  unfold solve
+  rw [if_neg (by omega)]
+  exact bind_error (decompose_rejects h hm)
 
 end Upper
 
@@ -936,6 +1118,1228 @@ theorem solve_upper_complete {b : Band F} (h : WFb b) (hm : b.m1 = 0) {rhs : Arr
   refine ⟨_, rfl, by simpa using q1, by simp only; split <;> omega⟩
 
 end UpperE
+
+/-! ### the compact LU with row exchanges (`bandec`) and the two substitution loops (`banbks`),
+    over a linearly ordered field: `solve` is sound for every `m1 ≤ n` -/
+section FullLU
+variable {F : Type} [Field F] [LinearOrder F]
+attribute [local instance] Ohsl.Alg.scalarExt
+
+/-- the multiplier of row `i` against pivot row `k` (zero when the pivot is zero) -/
+def mult (e : Nat → Nat → F) (k i : Nat) : F := if e k 0 = 0 then 0 else e i 0 / e k 0
+
+theorem elim_inner {au : Mat F} {n mm : Nat} {e : Nat → Nat → F} (hau : Is au n mm e) {k i : Nat}
+    (hk : k < n) (hi : i < n) (hki : k ≠ i) (dum : F) :
+    ∃ au', forM' 1 mm au (fun au j => do
+        let x ← au.get i j
+        let y ← au.get k j
+        au.set i (j - 1) (x - dum * y)) = .ok au' ∧
+      Is au' n mm (fun a b => if a = i ∧ b + 1 < mm then e i (b + 1) - dum * e k (b + 1) else e a b) := by
+  by_cases hmm : 1 ≤ mm
+  · refine forM'_inv (fun t (s : Mat F) => Is s n mm
+      (fun a b => if a = i ∧ b + 1 < t then e i (b + 1) - dum * e k (b + 1) else e a b))
+      1 mm au _ hmm (hau.congr (fun a b _ _ => by ifs_omega)) ?_
+    intro t s ht1 ht2 hs
+    have g1 := hs.get hi ht2
+    have g2 := hs.get hk ht2
+    rw [if_neg (by omega)] at g1 g2
+    obtain ⟨s', hs', hI⟩ := hs.set hi (show t - 1 < mm by omega) (e i t - dum * e k t)
+    refine ⟨s', by simp only [g1, g2, bind, Except.bind]; exact hs', hI.congr ?_⟩
+    intro a b _ _
+    by_cases hab : a = i ∧ b = t - 1
+    · obtain ⟨rfl, rfl⟩ := hab
+      have e1 : t - 1 + 1 = t := by omega
+      simp [e1]
+    · rw [if_neg hab]
+      ifs_omega
+  · have : mm = 0 := by omega
+    subst this
+    exact ⟨au, Mat.forM'_empty _ _ _ _ (by omega), hau.congr (fun a b _ hb => by omega)⟩
+
+theorem decElim_spec {au al : Mat F} {n mm m1 : Nat} {e ea : Nat → Nat → F}
+    (hau : Is au n mm e) (hal : Is al n m1 ea) {k i : Nat} (hk : k < n) (hi : i < n) (hki : k < i)
+    (him : i - k - 1 < m1) (hmm : 0 < mm) :
+    ∃ au' al', decElim mm k (au, al) i = .ok (au', al') ∧
+      Is au' n mm (fun a b => if a = i then
+        (if b + 1 < mm then e i (b + 1) - mult e k i * e k (b + 1) else 0) else e a b) ∧
+      Is al' n m1 (fun a b => if a = k ∧ b = i - k - 1 then mult e k i else ea a b) := by
+  have g1 := hau.get hi hmm
+  have g2 := hau.get hk hmm
+  have hb : ((e k 0 == 0) = true) = (e k 0 = 0) := propext beq_iff_eq
+  obtain ⟨al', ha', hIa⟩ := hal.set hk him (mult e k i)
+  obtain ⟨a1, h1, hI1⟩ := elim_inner hau hk hi (by omega) (mult e k i)
+  obtain ⟨a2, h2, hI2⟩ := hI1.set hi (show mm - 1 < mm by omega) (0 : F)
+  refine ⟨a2, al', ?_, hI2.congr ?_, hIa⟩
+  · unfold decElim
+    simp only [bind, Except.bind, pure, Except.pure] at h1 ⊢
+    by_cases hp : e k 0 = 0
+    · have hm : mult e k i = 0 := by simp [mult, hp]
+      rw [hm] at ha' h1
+      simp only [g1, g2, hp, beq_self_eq_true, if_true, ha', h1, h2]
+    · have hm : mult e k i = e i 0 / e k 0 := by simp [mult, hp]
+      rw [hm] at ha' h1
+      simp only [g1, g2, hb, hp, if_false, Alg.divM_eq, ha', h1, h2]
+  · intro a b _ _
+    ifs_omega
+
+/-- compact entries after eliminating rows `k < a < l` against pivot row `k` -/
+def elimE (mm : Nat) (e : Nat → Nat → F) (k l : Nat) : Nat → Nat → F := fun a b =>
+  if k < a ∧ a < l then (if b + 1 < mm then e a (b + 1) - mult e k a * e k (b + 1) else 0)
+  else e a b
+
+/-- stored multipliers after step `k` -/
+def elimA (e ea : Nat → Nat → F) (k l : Nat) : Nat → Nat → F := fun a b =>
+  if a = k ∧ b + k + 1 < l then mult e k (b + k + 1) else ea a b
+
+theorem elimLoop_spec {au al : Mat F} {n mm m1 : Nat} {e ea : Nat → Nat → F}
+    (hau : Is au n mm e) (hal : Is al n m1 ea) {k l : Nat} (hk : k < n) (hkl : k + 1 ≤ l)
+    (hln : l ≤ n) (hlm : l ≤ k + m1 + 1) (hmm : 0 < mm) :
+    ∃ st, forM' (k + 1) l (au, al) (decElim mm k) = .ok st ∧
+      Is st.1 n mm (elimE mm e k l) ∧ Is st.2 n m1 (elimA e ea k l) := by
+  refine forM'_inv (fun t (st : Mat F × Mat F) => Is st.1 n mm (elimE mm e k t) ∧
+      Is st.2 n m1 (elimA e ea k t)) (k + 1) l (au, al) _ hkl
+    ⟨hau.congr (fun a b _ _ => by unfold elimE; ifs_omega),
+     hal.congr (fun a b _ _ => by unfold elimA; ifs_omega)⟩ ?_
+  intro t st ht1 ht2 ⟨h1, h2⟩
+  obtain ⟨au1, al1⟩ := st
+  simp only at h1 h2
+  obtain ⟨au', al', hs, hI1, hI2⟩ := decElim_spec h1 h2 hk (show t < n by omega) (by omega)
+    (by omega) hmm
+  have r1 : ∀ b, elimE mm e k t t b = e t b := by
+    intro b; unfold elimE; rw [if_neg (by omega)]
+  have r2 : ∀ b, elimE mm e k t k b = e k b := by
+    intro b; unfold elimE; rw [if_neg (by omega)]
+  have r3 : mult (elimE mm e k t) k t = mult e k t := by
+    unfold mult; rw [r1, r2]
+  refine ⟨(au', al'), hs, hI1.congr ?_, hI2.congr ?_⟩
+  · intro a b _ _
+    simp only [r1, r2, r3]
+    unfold elimE
+    ifs_omega
+  · intro a b _ _
+    simp only [r3]
+    unfold elimA
+    by_cases hab : a = k ∧ b = t - k - 1
+    · obtain ⟨rfl, rfl⟩ := hab
+      have e1 : t - a - 1 + a + 1 = t := by omega
+      simp [e1]
+    · rw [if_neg hab]
+      ifs_omega
+
+/-- the pivot search returns some row of the window together with its first slot -/
+theorem pivotLoop_spec {au : Mat F} {n mm : Nat} {e : Nat → Nat → F} (hau : Is au n mm e)
+    {k l : Nat} (hkl : k + 1 ≤ l) (hln : l ≤ n) (hmm : 0 < mm) :
+    ∃ ip, k ≤ ip ∧ ip < l ∧
+      forM' (k + 1) l (e k 0, k) (fun (dum, i) j => do
+        let x ← au.get j 0
+        if ScalarExt.lt (ScalarExt.mag dum) (ScalarExt.mag x) then pure (x, j) else pure (dum, i))
+        = .ok (e ip 0, ip) := by
+  suffices key : ∃ st, forM' (k + 1) l (e k 0, k) (fun (dum, i) j => do
+        let x ← au.get j 0
+        if ScalarExt.lt (ScalarExt.mag dum) (ScalarExt.mag x) then pure (x, j) else pure (dum, i))
+        = .ok st ∧ st.1 = e st.2 0 ∧ k ≤ st.2 ∧ st.2 < l by
+    obtain ⟨⟨d, ip⟩, h1, h2, h3, h4⟩ := key
+    simp only at h2 h3 h4
+    exact ⟨ip, h3, h4, by rw [h1, h2]⟩
+  refine forM'_inv (fun t (st : F × Nat) => st.1 = e st.2 0 ∧ k ≤ st.2 ∧ st.2 < t) (k + 1) l
+    (e k 0, k) _ hkl ⟨rfl, Nat.le_refl _, by simp⟩ ?_
+  intro t st ht1 ht2 ⟨h1, h2, h3⟩
+  obtain ⟨d, ip⟩ := st
+  simp only at h1 h2 h3
+  have g := hau.get (show t < n by omega) hmm
+  simp only [g, bind, Except.bind, pure, Except.pure]
+  split
+  · exact ⟨_, rfl, rfl, by simp only; omega, by simp only; omega⟩
+  · exact ⟨_, rfl, h1, h2, by simp only; omega⟩
+
+/-- the exchange loop of `decompose` is `swap_rows` -/
+theorem swapLoop_spec {au : Mat F} {n mm : Nat} {e : Nat → Nat → F} (hau : Is au n mm e)
+    {k ip : Nat} (hk : k < n) (hip : ip < n) :
+    ∃ au', forM' 0 mm au (fun au j => Mat.swapElem au k j ip j) = .ok au' ∧
+      Is au' n mm (fun a b => if a = k then e ip b else if a = ip then e k b else e a b) := by
+  have := Mat.swapRows_spec hau hk hip
+  have hg : ¬ (n ≤ k ∨ n ≤ ip) := by omega
+  simp only [Mat.swapRows, hau.rows, hau.cols, hg, if_false] at this
+  exact this
+
+/-- a zero pivot is overwritten by the literal zero -/
+def zeroFix (e : Nat → Nat → F) (k ip : Nat) : Nat → Nat → F := fun a b =>
+  if e ip 0 = 0 ∧ a = k ∧ b = 0 then 0 else e a b
+
+/-- exchange of rows `k` and `ip` -/
+def swapR (e : Nat → Nat → F) (k ip : Nat) : Nat → Nat → F := fun a b =>
+  if a = k then e ip b else if a = ip then e k b else e a b
+
+theorem decStep_spec {s : Dec F} {n mm m1 l k : Nat} {e ea : Nat → Nat → F}
+    (hau : Is s.au n mm e) (hal : Is s.al n m1 ea) (hidx : s.index.size = n) (hk : k < n)
+    (hmm : 0 < mm) (hl : l = min (m1 + k) n) :
+    ∃ ip au' al', k ≤ ip ∧ ip < min (m1 + k + 1) n ∧
+      decStep n mm (s, l) k = .ok (⟨au', al', s.index.setIfInBounds k (ip + 1),
+        if ip ≠ k then -s.d else s.d⟩, min (m1 + k + 1) n) ∧
+      Is au' n mm (elimE mm (swapR (zeroFix e k ip) k ip) k (min (m1 + k + 1) n)) ∧
+      Is al' n m1 (elimA (swapR (zeroFix e k ip) k ip) ea k (min (m1 + k + 1) n)) := by
+  have hl' : (if l < n then l + 1 else l) = min (m1 + k + 1) n := by split <;> omega
+  have g0 := hau.get hk hmm
+  obtain ⟨ip, hip1, hip2, hpiv⟩ := pivotLoop_spec hau (k := k) (l := min (m1 + k + 1) n)
+    (by omega) (by omega) hmm
+  have hipn : ip < n := by omega
+  have hb : ((e ip 0 == 0) = true) = (e ip 0 = 0) := propext beq_iff_eq
+  -- zero fix
+  obtain ⟨au0, h0, hI0⟩ : ∃ au0, (if (e ip 0 == 0) = true then s.au.set k 0 0 else pure s.au)
+      = .ok au0 ∧ Is au0 n mm (zeroFix e k ip) := by
+    by_cases hz : e ip 0 = 0
+    · obtain ⟨v, hv, hI⟩ := hau.set hk hmm (0 : F)
+      refine ⟨v, by rw [if_pos (by rw [hb]; exact hz), hv], hI.congr (fun a b _ _ => ?_)⟩
+      unfold zeroFix; simp [hz]
+    · refine ⟨s.au, by rw [if_neg (by rw [hb]; exact hz)]; rfl, hau.congr (fun a b _ _ => ?_)⟩
+      unfold zeroFix; simp [hz]
+  -- exchange
+  obtain ⟨au1, h1, hI1⟩ := swapLoop_spec hI0 hk hipn
+  have hI1' : ∃ au1', (if ip ≠ k then (do
+        let au ← forM' 0 mm au0 (fun au j => Mat.swapElem au k j ip j)
+        pure (au, -s.d)) else pure (au0, s.d)) = .ok (au1', if ip ≠ k then -s.d else s.d) ∧
+      Is au1' n mm (swapR (zeroFix e k ip) k ip) := by
+    by_cases hik : ip = k
+    · refine ⟨au0, by simp [hik, pure, Except.pure], hI0.congr (fun a b _ _ => ?_)⟩
+      unfold swapR; subst hik
+      by_cases ha : a = ip
+      · subst ha; simp
+      · simp [ha]
+    · refine ⟨au1, by simp [hik, h1, bind, Except.bind, pure, Except.pure], hI1⟩
+  obtain ⟨au1', h1', hI1''⟩ := hI1'
+  obtain ⟨st, h2, hI2, hI3⟩ := elimLoop_spec hI1'' hal hk (l := min (m1 + k + 1) n) (by omega)
+    (by omega) (by omega) hmm
+  obtain ⟨au2, al2⟩ := st
+  refine ⟨ip, au2, al2, hip1, hip2, ?_, hI2, hI3⟩
+  unfold decStep
+  simp only [bind, Except.bind, pure, Except.pure] at hpiv h0 h1' ⊢
+  simp only [g0, hl', hpiv, aset_ok _ (show k < s.index.size by omega)]
+  by_cases hz : (e ip 0 == 0) = true
+  · rw [if_pos hz] at h0
+    by_cases hik : ip ≠ k
+    · simp only [if_pos hik, h1] at h1'
+      injection h1' with h1'; injection h1' with h1' _; subst h1'
+      simp only [if_pos hz, if_pos hik, h0, h1, h2]
+    · simp only [if_neg hik] at h1'
+      injection h1' with h1'; injection h1' with h1' _; subst h1'
+      simp only [if_pos hz, if_neg hik, h0, h2]
+  · rw [if_neg hz] at h0
+    injection h0 with h0; subst h0
+    by_cases hik : ip ≠ k
+    · simp only [if_pos hik, h1] at h1'
+      injection h1' with h1'; injection h1' with h1' _; subst h1'
+      simp only [if_neg hz, if_pos hik, h1, h2]
+    · simp only [if_neg hik] at h1'
+      injection h1' with h1'; injection h1' with h1' _; subst h1'
+      simp only [if_neg hz, if_neg hik, h2]
+
+/-! #### the dense twin of the compact working matrix -/
+
+/-- first matrix column of compact row `i` before step `k`: finished rows start at their diagonal,
+    the rows of the window `[k, l)` are aligned to column `k`, untouched rows start at `i - m1` -/
+def off (m1 k l i : Nat) : Nat := if i < k then i else if i < l then k else i - m1
+
+/-- dense twin of the compact working matrix before step `k` -/
+def twin (m1 mm k l : Nat) (e : Nat → Nat → F) (i c : Nat) : F :=
+  if off m1 k l i ≤ c ∧ c < off m1 k l i + mm then e i (c - off m1 k l i) else 0
+
+/-- `z` solves the system with matrix `M` and right-hand side `y` -/
+def SolF (n : Nat) (M : Nat → Nat → F) (y z : Nat → F) : Prop :=
+  ∀ i, i < n → ∑ j ∈ Finset.range n, M i j * z j = y i
+
+def swapV (y : Nat → F) (k ip : Nat) : Nat → F := fun a =>
+  if a = k then y ip else if a = ip then y k else y a
+
+theorem SolF.congr {n : Nat} {M M' : Nat → Nat → F} {y y' z : Nat → F}
+    (hM : ∀ a c, a < n → c < n → M' a c = M a c) (hy : ∀ a, a < n → y' a = y a)
+    (h : SolF n M y z) : SolF n M' y' z := by
+  intro i hi
+  rw [hy i hi, ← h i hi]
+  exact Finset.sum_congr rfl (fun j hj => by rw [hM i j hi (Finset.mem_range.mp hj)])
+
+/-- exchanging two equations does not change the solution set -/
+theorem SolF.of_swap {n k ip : Nat} (hk : k < n) (hip : ip < n) {M : Nat → Nat → F}
+    {y z : Nat → F} (h : SolF n (swapR M k ip) (swapV y k ip) z) : SolF n M y z := by
+  intro i hi
+  by_cases hik : i = k
+  · subst hik
+    have := h ip hip
+    by_cases hpi : ip = i
+    · subst hpi; simpa [swapR, swapV] using this
+    · simpa [swapR, swapV, hpi] using this
+  · by_cases hip' : i = ip
+    · subst hip'
+      have := h k hk
+      simpa [swapR, swapV] using this
+    · have := h i hi
+      simpa [swapR, swapV, hik, hip'] using this
+
+/-- subtracting multiples of equation `k` from the equations `k < a < l` does not change the
+    solution set -/
+theorem SolF.of_elim {n k l : Nat} (hk : k < n) (μ : Nat → F) {M : Nat → Nat → F}
+    {y z : Nat → F}
+    (h : SolF n (fun a c => if k < a ∧ a < l then M a c - μ a * M k c else M a c)
+      (fun a => if k < a ∧ a < l then y a - μ a * y k else y a) z) : SolF n M y z := by
+  have hrow : ∑ j ∈ Finset.range n, M k j * z j = y k := by
+    have := h k hk
+    simpa using this
+  intro i hi
+  by_cases hc : k < i ∧ i < l
+  · have := h i hi
+    simp only [hc, and_self, if_true] at this
+    have e1 : ∑ j ∈ Finset.range n, (M i j - μ i * M k j) * z j =
+        ∑ j ∈ Finset.range n, M i j * z j - μ i * ∑ j ∈ Finset.range n, M k j * z j := by
+      rw [Finset.mul_sum, ← Finset.sum_sub_distrib]
+      exact Finset.sum_congr rfl (fun j _ => by ring)
+    rw [e1, hrow] at this
+    linear_combination this
+  · have := h i hi
+    simpa [hc] using this
+
+theorem twin_window {n m1 mm k : Nat} (e : Nat → Nat → F) {a : Nat} (ha : a < n) (c : Nat) :
+    twin m1 mm k (min (m1 + k) n) e a c = twin m1 mm k (min (m1 + k + 1) n) e a c := by
+  have : off m1 k (min (m1 + k) n) a = off m1 k (min (m1 + k + 1) n) a := by
+    unfold off; ifs_omega
+  unfold twin; rw [this]
+
+theorem twin_swap {m1 mm k l ip : Nat} (e : Nat → Nat → F) (hk : k < l) (h1 : k ≤ ip) (h2 : ip < l)
+    (a c : Nat) : twin m1 mm k l (swapR e k ip) a c = swapR (twin m1 mm k l e) k ip a c := by
+  have o1 : off m1 k l k = k := by unfold off; ifs_omega
+  have o2 : off m1 k l ip = k := by unfold off; ifs_omega
+  unfold swapR
+  by_cases hak : a = k
+  · subst hak
+    simp only [twin, if_true, o1, o2]
+  · by_cases hai : a = ip
+    · subst hai
+      simp only [twin, hak, if_false, if_true, o1, o2]
+    · simp only [twin, hak, hai, if_false]
+
+theorem twin_elim {m1 mm k l : Nat} (e : Nat → Nat → F) (hk : k < l) (hp : e k 0 ≠ 0) (a c : Nat) :
+    twin m1 mm (k + 1) l (elimE mm e k l) a c =
+      if k < a ∧ a < l then twin m1 mm k l e a c - mult e k a * twin m1 mm k l e k c
+      else twin m1 mm k l e a c := by
+  have o1 : off m1 k l k = k := by unfold off; ifs_omega
+  by_cases hw : k < a ∧ a < l
+  · have o2 : off m1 (k + 1) l a = k + 1 := by unfold off; ifs_omega
+    have o3 : off m1 k l a = k := by unfold off; ifs_omega
+    rw [if_pos hw]
+    simp only [twin, o1, o2, o3, elimE, hw, and_self, if_true]
+    by_cases h1 : c < k
+    · rw [if_neg (by omega), if_neg (by omega), if_neg (by omega)]; ring
+    · by_cases h2 : c = k
+      · subst h2
+        rw [if_neg (by omega)]
+        by_cases hmm : 0 < mm
+        · rw [if_pos (by omega), if_pos (by omega), Nat.sub_self]
+          unfold mult
+          rw [if_neg hp]
+          field_simp
+          ring
+        · rw [if_neg (by omega), if_neg (by omega)]; ring
+      · by_cases h3 : c < k + mm
+        · have e1 : c - (k + 1) + 1 = c - k := by omega
+          rw [if_pos (by omega), if_pos (by omega), if_pos (by omega), if_pos (by omega), e1]
+        · by_cases h4 : c = k + mm
+          · rw [if_pos (by omega), if_neg (by omega), if_neg (by omega), if_neg (by omega)]; ring
+          · rw [if_neg (by omega), if_neg (by omega), if_neg (by omega)]; ring
+  · have o2 : off m1 (k + 1) l a = off m1 k l a := by unfold off; ifs_omega
+    rw [if_neg hw]
+    simp only [twin, o2, elimE, hw, if_false]
+
+/-! #### replay of the recorded exchanges and multipliers on a right-hand side -/
+
+/-- one forward step on a vector: exchange `k ↔ ip`, then subtract the stored multiples -/
+def fwdStep (ea : Nat → Nat → F) (k l ip : Nat) (y : Nat → F) : Nat → F := fun a =>
+  if k < a ∧ a < l then swapV y k ip a - ea k (a - k - 1) * swapV y k ip k else swapV y k ip a
+
+/-- the first `k` forward steps -/
+def fwd (n m1 : Nat) (ea : Nat → Nat → F) (idx : Nat → Nat) : Nat → (Nat → F) → (Nat → F)
+  | 0, y => y
+  | k + 1, y => fwdStep ea k (min (m1 + k + 1) n) (idx k - 1) (fwd n m1 ea idx k y)
+
+theorem fwd_congr {n m1 : Nat} {ea ea' : Nat → Nat → F} {idx idx' : Nat → Nat} :
+    ∀ (k : Nat), (∀ k', k' < k → (∀ b, b < m1 → ea' k' b = ea k' b) ∧ idx' k' = idx k') →
+      ∀ y, fwd n m1 ea' idx' k y = fwd n m1 ea idx k y
+  | 0, _, _ => rfl
+  | k + 1, h, y => by
+    simp only [fwd]
+    rw [fwd_congr k (fun k' hk' => h k' (by omega)) y, (h k (by omega)).2]
+    funext a
+    unfold fwdStep
+    by_cases hc : k < a ∧ a < min (m1 + k + 1) n
+    · rw [if_pos hc, if_pos hc, (h k (by omega)).1 (a - k - 1) (by omega)]
+    · rw [if_neg hc, if_neg hc]
+
+theorem twin_congr {n m1 mm k l : Nat} {e e' : Nat → Nat → F}
+    (h : ∀ a b, a < n → b < mm → e' a b = e a b) {a : Nat} (ha : a < n) (c : Nat) :
+    twin m1 mm k l e' a c = twin m1 mm k l e a c := by
+  unfold twin
+  by_cases hc : off m1 k l a ≤ c ∧ c < off m1 k l a + mm
+  · rw [if_pos hc, if_pos hc, h a _ ha (by omega)]
+  · rw [if_neg hc, if_neg hc]
+
+theorem zeroFix_eq {e : Nat → Nat → F} {k ip : Nat} (h : e ip 0 ≠ 0) : zeroFix e k ip = e := by
+  funext a b; unfold zeroFix; rw [if_neg (fun hc => h hc.1)]
+
+/-- canonical index function of the exchange record -/
+def idxf (index : Array Nat) (k : Nat) : Nat := index[k]?.getD 0
+
+/-- invariant of the pivot loop of `decompose` (before step `k`) -/
+def DecInv (n m1 mm : Nat) (A : Nat → Nat → F) (k : Nat) (st : Dec F × Nat) : Prop :=
+  st.2 = min (m1 + k) n ∧ Is st.1.au n mm (Mat.entryOf st.1.au) ∧
+  Is st.1.al n m1 (Mat.entryOf st.1.al) ∧ st.1.index.size = n ∧
+  (∀ k', k' < k → k' < idxf st.1.index k' ∧ idxf st.1.index k' ≤ min (m1 + k' + 1) n) ∧
+  ((∃ k', k' < k ∧ Mat.entryOf st.1.au k' 0 = 0) ∨
+   (∀ y z, SolF n (twin m1 mm k (min (m1 + k) n) (Mat.entryOf st.1.au))
+      (fwd n m1 (Mat.entryOf st.1.al) (idxf st.1.index) k y) z → SolF n A y z))
+
+theorem decStep_inv {n m1 mm k : Nat} {A : Nat → Nat → F} {st : Dec F × Nat} (hk : k < n)
+    (hmm : 0 < mm) (h : DecInv n m1 mm A k st) :
+    ∃ st', decStep n mm st k = .ok st' ∧ DecInv n m1 mm A (k + 1) st' := by
+  obtain ⟨s, l⟩ := st
+  obtain ⟨hl, hau, hal, hsz, hidx, hgb⟩ := h
+  simp only at hl hau hal hsz hidx hgb
+  obtain ⟨ip, au', al', hip1, hip2, hstep, hI1, hI2⟩ := decStep_spec hau hal hsz hk hmm hl
+  refine ⟨_, hstep, rfl, hI1.canon, hI2.canon, by simpa using hsz, ?_, ?_⟩
+  · -- exchange record
+    intro k' hk'
+    simp only [idxf, Array.getElem?_setIfInBounds]
+    by_cases hkk : k = k'
+    · subst hkk
+      simp only [if_true, hsz, hk, Option.getD_some]
+      omega
+    · rw [if_neg hkk]
+      exact hidx k' (by omega)
+  · -- solution sets
+    have hkl : k < min (m1 + k + 1) n := by omega
+    have ent0 : ∀ a, a < n → Mat.entryOf au' a 0 =
+        elimE mm (swapR (zeroFix (Mat.entryOf s.au) k ip) k ip) k (min (m1 + k + 1) n) a 0 :=
+      fun a ha => hI1.entryOf_eq ha hmm
+    rcases hgb with ⟨k', hk', hz⟩ | hgood
+    · left
+      refine ⟨k', by omega, ?_⟩
+      simp only
+      rw [ent0 k' (by omega)]
+      have c1 : ¬ (k < k' ∧ k' < min (m1 + k + 1) n) := by omega
+      have c2 : ¬ k' = k := by omega
+      have c3 : ¬ k' = ip := by omega
+      simp only [elimE, swapR, zeroFix, c1, c2, c3, if_false, false_and, and_false]
+      exact hz
+    · by_cases hp : Mat.entryOf s.au ip 0 = 0
+      · left
+        refine ⟨k, by omega, ?_⟩
+        simp only
+        rw [ent0 k hk]
+        have c1 : ¬ (k < k ∧ k < min (m1 + k + 1) n) := by omega
+        simp only [elimE, swapR, zeroFix, c1, if_false, if_true, hp, true_and]
+        split <;> rfl
+      · right
+        intro y z hS
+        simp only [← Nat.add_assoc] at hS
+        apply hgood y z
+        rw [zeroFix_eq hp] at hI1 hI2
+        have hp1 : swapR (Mat.entryOf s.au) k ip k 0 ≠ 0 := by simpa [swapR] using hp
+        refine SolF.congr (fun a c ha _ => twin_window (Mat.entryOf s.au) ha c) (fun _ _ => rfl) ?_
+        apply SolF.of_swap hk (show ip < n by omega)
+        apply SolF.of_elim hk (fun a => mult (swapR (Mat.entryOf s.au) k ip) k a)
+          (l := min (m1 + k + 1) n)
+        refine SolF.congr ?_ ?_ hS
+        · intro a c ha hc
+          symm
+          rw [twin_congr (fun a b ha hb => hI1.entryOf_eq ha hb) ha c,
+            twin_elim _ hkl hp1, twin_swap _ hkl hip1 hip2, twin_swap _ hkl hip1 hip2]
+        · intro a ha
+          simp only [fwd]
+          have hfr : fwd n m1 (Mat.entryOf al') (idxf (s.index.setIfInBounds k (ip + 1))) k y =
+              fwd n m1 (Mat.entryOf s.al) (idxf s.index) k y := by
+            apply fwd_congr
+            intro k' hk'
+            refine ⟨fun b hb => ?_, ?_⟩
+            · rw [hI2.entryOf_eq (show k' < n by omega) hb]
+              unfold elimA
+              rw [if_neg (by omega)]
+            · simp only [idxf, Array.getElem?_setIfInBounds]
+              rw [if_neg (by omega)]
+          have hix : idxf (s.index.setIfInBounds k (ip + 1)) k - 1 = ip := by
+            simp [idxf, Array.getElem?_setIfInBounds, hsz, hk]
+          rw [hfr, hix]
+          unfold fwdStep
+          by_cases hc : k < a ∧ a < min (m1 + k + 1) n
+          · rw [if_pos hc, if_pos hc, hI2.entryOf_eq hk (show a - k - 1 < m1 by omega)]
+            unfold elimA
+            have e1 : a - k - 1 + k + 1 = a := by omega
+            rw [if_pos ⟨rfl, by omega⟩, e1]
+          · rw [if_neg hc, if_neg hc]
+
+/-- the dense twin of the compact matrix after the first phase is the dense twin of `b` -/
+theorem twin_zero {b : Band F} (h : WFb b) {a c : Nat} (ha : a < b.n) (hc : c < b.n) :
+    twin b.m1 (b.m1 + b.m2 + 1) 0 b.m1 (shifted b.m1 b.m2 (Mat.entryOf b.compact)) a c =
+      dense b a c := by
+  have o : off b.m1 0 b.m1 a = a - b.m1 := by
+    unfold off
+    rw [if_neg (by omega)]
+    split
+    · omega
+    · rfl
+  unfold twin
+  rw [o]
+  by_cases hw : a - b.m1 ≤ c ∧ c < a - b.m1 + (b.m1 + b.m2 + 1)
+  · rw [if_pos hw]
+    by_cases ht : (c - (a - b.m1)) + (b.m1 - a) < b.m1 + b.m2 + 1
+    · rw [shifted_dense h ha ht (by omega)]
+      congr 1; omega
+    · rw [dense_out (by unfold inBand; omega)]
+      unfold shifted
+      rw [if_pos (by omega), if_neg ht]
+  · rw [if_neg hw, dense_out (by unfold inBand; omega)]
+
+/-- (E) `decompose` (for `m1 ≤ n`) always succeeds over a field, and its result satisfies the
+    invariant `DecInv` at `k = n` with respect to the dense twin of `b` -/
+theorem decompose_inv {b : Band F} (h : WFb b) (hm : b.m1 ≤ b.n) :
+    ∃ s l, decompose b = .ok s ∧ DecInv b.n b.m1 (b.m1 + b.m2 + 1) (dense b) b.n (s, l) := by
+  obtain ⟨au0, h0, hI0⟩ := shiftRows_spec h.is hm
+  unfold decompose
+  simp only [h0, bind, Except.bind]
+  obtain ⟨st, hst, hinv⟩ := forM'_inv (DecInv b.n b.m1 (b.m1 + b.m2 + 1) (dense b)) 0 b.n
+    ((⟨au0, Mat.new b.n b.m1 0, Array.replicate b.n 0, 1⟩ : Dec F), b.m1)
+    (decStep b.n (b.m1 + b.m2 + 1)) (Nat.zero_le _)
+    ⟨by simp only; omega, hI0.canon, (Mat.Is.of_new b.n b.m1 (0 : F)).canon, by simp,
+      fun k' hk' => by omega, Or.inr (by
+        intro y z hS
+        refine SolF.congr ?_ (fun _ _ => rfl) hS
+        intro a c ha hc
+        simp only [Nat.add_zero, Nat.min_eq_left hm]
+        rw [twin_congr (fun a b ha hb => hI0.entryOf_eq ha hb) ha c, twin_zero h ha hc])⟩
+    (fun k st _ hk hinv => decStep_inv hk (by omega) hinv)
+  obtain ⟨s, l⟩ := st
+  exact ⟨s, l, by rw [hst]; rfl, hinv⟩
+
+/-! #### the two substitution loops of `solve` -/
+
+theorem getD_set {x : Array F} {i : Nat} (v : F) (h : i < x.size) (a : Nat) :
+    (x.setIfInBounds i v)[a]?.getD 0 = if a = i then v else x[a]?.getD 0 := by
+  rw [Array.getElem?_setIfInBounds]
+  by_cases hai : a = i
+  · subst hai; simp [h]
+  · rw [if_neg (fun e => hai e.symm), if_neg hai]
+
+theorem aget_getD {x : Array F} {i : Nat} (h : i < x.size) : aget x i = .ok (x[i]?.getD 0) := by
+  rw [aget_ok h]; simp [h]
+
+theorem vswap_spec {x : Array F} {k j : Nat} (hk : k < x.size) (hj : j < x.size) :
+    ∃ x', Vec.swap x k j = .ok x' ∧ x'.size = x.size ∧
+      ∀ a, x'[a]?.getD 0 = swapV (fun a => x[a]?.getD 0) k j a := by
+  have hk' : k < (x.setIfInBounds k (x[j]?.getD 0)).size := by simpa using hk
+  have hj' : j < (x.setIfInBounds k (x[j]?.getD 0)).size := by simpa using hj
+  refine ⟨(x.setIfInBounds k (x[j]?.getD 0)).setIfInBounds j (x[k]?.getD 0), ?_, by simp, ?_⟩
+  · simp only [Vec.swap, aget_getD hk, aget_getD hj, aset_ok _ hk, aset_ok _ hj', bind, Except.bind]
+  · intro a
+    rw [getD_set _ hj', getD_set _ hk]
+    unfold swapV
+    by_cases h1 : a = j
+    · subst h1
+      by_cases h2 : a = k
+      · subst h2; simp
+      · simp [h2]
+    · simp [h1]
+
+/-- inner loop of the forward substitution -/
+theorem fwd_inner {al : Mat F} {n m1 : Nat} {ea : Nat → Nat → F} (hal : Is al n m1 ea)
+    (x : Array F) (hx : x.size = n) {k l : Nat} (hk : k < n) (hkl : k + 1 ≤ l) (hln : l ≤ n)
+    (hlm : l ≤ m1 + k + 1) :
+    ∃ x', forM' (k + 1) l x (fun x j => do
+        let xk ← aget x k
+        let a ← al.get k (j - k - 1)
+        let xj ← aget x j
+        aset x j (xj - a * xk)) = .ok x' ∧ x'.size = n ∧
+      ∀ a, x'[a]?.getD 0 = if k < a ∧ a < l then
+        x[a]?.getD 0 - ea k (a - k - 1) * x[k]?.getD 0 else x[a]?.getD 0 := by
+  refine forM'_inv (fun t (x' : Array F) => x'.size = n ∧
+      ∀ a, x'[a]?.getD 0 = if k < a ∧ a < t then
+        x[a]?.getD 0 - ea k (a - k - 1) * x[k]?.getD 0 else x[a]?.getD 0)
+    (k + 1) l x _ hkl ⟨hx, fun a => by rw [if_neg (by omega)]⟩ ?_
+  intro t x' ht1 ht2 ⟨hs, hv⟩
+  have hk' : k < x'.size := by omega
+  have ht' : t < x'.size := by omega
+  have g := hal.get hk (show t - k - 1 < m1 by omega)
+  refine ⟨x'.setIfInBounds t (x'[t]?.getD 0 - ea k (t - k - 1) * x'[k]?.getD 0),
+    by simp only [aget_getD hk', aget_getD ht', g, aset_ok _ ht', bind, Except.bind],
+    by simpa using hs, ?_⟩
+  intro a
+  have hvk : x'[k]?.getD 0 = x[k]?.getD 0 := by rw [hv k, if_neg (by omega)]
+  have hvt : x'[t]?.getD 0 = x[t]?.getD 0 := by rw [hv t, if_neg (by omega)]
+  rw [getD_set _ ht', hvk, hvt]
+  by_cases hat : a = t
+  · subst hat
+    rw [if_pos rfl, if_pos (by omega)]
+  · rw [if_neg hat, hv a]
+    ifs_omega
+
+/-- (E) the forward-substitution loop of `solve` replays the recorded exchanges and multipliers -/
+theorem solve_fwd_spec {n m1 : Nat} {al : Mat F} {index : Array Nat} {ea : Nat → Nat → F}
+    (hal : Is al n m1 ea) (hsz : index.size = n)
+    (hidx : ∀ k, k < n → k < idxf index k ∧ idxf index k ≤ min (m1 + k + 1) n) (hm : m1 ≤ n)
+    (rhs : Array F) (hr : rhs.size = n) :
+    ∃ st, forM' 0 n (rhs, m1) (fun (x, l) k => do
+      let ik ← aget index k
+      let j ← usub ik 1
+      let x ← if j ≠ k then Vec.swap x k j else pure x
+      let l := if l < n then l + 1 else l
+      let x ← forM' (k + 1) l x (fun x j => do
+        let xk ← aget x k
+        let a ← al.get k (j - k - 1)
+        let xj ← aget x j
+        aset x j (xj - a * xk))
+      pure (x, l)) = .ok st ∧ st.1.size = n ∧
+      ∀ a, st.1[a]?.getD 0 = fwd n m1 ea (idxf index) n (fun a => rhs[a]?.getD 0) a := by
+  suffices key : ∃ st, forM' 0 n (rhs, m1) (fun (x, l) k => do
+      let ik ← aget index k
+      let j ← usub ik 1
+      let x ← if j ≠ k then Vec.swap x k j else pure x
+      let l := if l < n then l + 1 else l
+      let x ← forM' (k + 1) l x (fun x j => do
+        let xk ← aget x k
+        let a ← al.get k (j - k - 1)
+        let xj ← aget x j
+        aset x j (xj - a * xk))
+      pure (x, l)) = .ok st ∧ st.2 = min (m1 + n) n ∧ st.1.size = n ∧
+      ∀ a, st.1[a]?.getD 0 = fwd n m1 ea (idxf index) n (fun a => rhs[a]?.getD 0) a by
+    obtain ⟨st, h1, _, h3, h4⟩ := key
+    exact ⟨st, h1, h3, h4⟩
+  refine forM'_inv (fun k (st : Array F × Nat) => st.2 = min (m1 + k) n ∧ st.1.size = n ∧
+      ∀ a, st.1[a]?.getD 0 = fwd n m1 ea (idxf index) k (fun a => rhs[a]?.getD 0) a)
+    0 n (rhs, m1) _ (Nat.zero_le _) ⟨by simp only; omega, hr, fun a => rfl⟩ ?_
+  intro k st _ hk ⟨h1, h2, h3⟩
+  obtain ⟨x, l⟩ := st
+  simp only at h1 h2 h3
+  obtain ⟨hi1, hi2⟩ := hidx k hk
+  have hki : k < index.size := by omega
+  have g1 : aget index k = .ok (idxf index k) := by
+    rw [aget_ok hki]; simp [idxf, hki]
+  have g2 : usub (idxf index k) 1 = .ok (idxf index k - 1) := usub_ok (by omega)
+  have hl' : (if l < n then l + 1 else l) = min (m1 + k + 1) n := by split <;> omega
+  -- the exchange
+  obtain ⟨x1, hx1, hs1, hv1⟩ : ∃ x1, (if idxf index k - 1 ≠ k then Vec.swap x k (idxf index k - 1)
+      else pure x) = .ok x1 ∧ x1.size = n ∧
+      ∀ a, x1[a]?.getD 0 = swapV (fun a => x[a]?.getD 0) k (idxf index k - 1) a := by
+    by_cases hik : idxf index k - 1 ≠ k
+    · obtain ⟨x1, e1, e2, e3⟩ := vswap_spec (x := x) (k := k) (j := idxf index k - 1)
+        (by omega) (by omega)
+      exact ⟨x1, by rw [if_pos hik, e1], by omega, e3⟩
+    · refine ⟨x, by rw [if_neg hik]; rfl, h2, fun a => ?_⟩
+      have : idxf index k - 1 = k := by omega
+      rw [this]; unfold swapV
+      by_cases hak : a = k
+      · subst hak; simp
+      · simp [hak]
+  obtain ⟨x2, hx2, hs2, hv2⟩ := fwd_inner hal x1 hs1 hk (l := min (m1 + k + 1) n) (by omega)
+    (by omega) (by omega)
+  refine ⟨(x2, min (m1 + k + 1) n), ?_, rfl, hs2, ?_⟩
+  · simp only [bind, Except.bind, pure, Except.pure] at hx1 hx2 ⊢
+    simp only [g1, g2, hl']
+    by_cases hik : idxf index k - 1 ≠ k
+    · rw [if_pos hik] at hx1 ⊢
+      simp only [hx1, hx2]
+    · rw [if_neg hik] at hx1 ⊢
+      injection hx1 with hx1; subst hx1
+      simp only [hx2]
+  · intro a
+    simp only [fwd]
+    rw [hv2 a, hv1 a, hv1 k]
+    unfold fwdStep
+    have hfun : (fun a => x[a]?.getD 0) = fwd n m1 ea (idxf index) k (fun a => rhs[a]?.getD 0) :=
+      funext h3
+    rw [hfun]
+
+/-- (E) the back-substitution loop of `solve`: if it returns, every pivot is non-zero and the
+    result solves the banded upper-triangular system stored in `au` -/
+theorem back_spec {au : Mat F} {n mm : Nat} {e : Nat → Nat → F} (hau : Is au n mm e)
+    (hmm : 0 < mm) (x0 : Array F) (hx : x0.size = n) {st : Array F × Nat}
+    (h : (List.range n).reverse.foldlM (fun (xl : Array F × Nat) i => do
+        let xi ← aget xl.1 i
+        let dum ← forM' 1 xl.2 xi (fun dum k => do
+          let a ← au.get i k
+          let xk ← aget xl.1 (k + i)
+          pure (dum - a * xk))
+        let p ← au.get i 0
+        let q ← divM dum p
+        let x ← aset xl.1 i q
+        pure (x, if xl.2 < mm then xl.2 + 1 else xl.2)) (x0, 1) = .ok st) :
+    st.1.size = n ∧ ∀ a, a < n → e a 0 ≠ 0 ∧
+      e a 0 * st.1[a]?.getD 0 + ∑ k ∈ Finset.Ico 1 (min (n - a) mm), e a k * st.1[k + a]?.getD 0
+        = x0[a]?.getD 0 := by
+  have hQ := foldlM_rev_ok_inv
+    (fun j (st : Array F × Nat) => st.1.size = n ∧ st.2 = min (n - j + 1) mm ∧
+      (∀ a, a < j → st.1[a]? = x0[a]?) ∧
+      ∀ a, j ≤ a → a < n → e a 0 ≠ 0 ∧
+        e a 0 * st.1[a]?.getD 0 + ∑ k ∈ Finset.Ico 1 (min (n - a) mm), e a k * st.1[k + a]?.getD 0
+          = x0[a]?.getD 0)
+    _ n (x0, 1) st ⟨hx, by simp only; omega, fun _ _ => rfl, fun a h1 h2 => by omega⟩ (by
+      intro i st s1 hi ⟨q1, q2, q3, q4⟩ hf
+      obtain ⟨x, l⟩ := st
+      simp only at q1 q2 q3 q4 hf
+      have hix : i < x.size := by omega
+      have hl : l = min (n - i) mm := by omega
+      have hdum := back_dum hau x q1 hi (l := l) (by omega) (by omega) (by omega) x[i]
+      have hp := hau.get hi hmm
+      simp only [bind, Except.bind, pure, Except.pure] at hdum hf
+      simp only [aget_ok hix, hdum, hp, Alg.divM_eq] at hf
+      by_cases hp0 : e i 0 = 0
+      · simp [hp0] at hf
+      · simp only [hp0, if_false, aset_ok _ hix] at hf
+        injection hf with hf
+        subst hf
+        refine ⟨by simpa using q1, by simp only; split <;> omega, ?_, ?_⟩
+        · intro a ha
+          simp only [Array.getElem?_setIfInBounds]
+          rw [if_neg (by omega)]
+          exact q3 a (by omega)
+        · intro a ha1 ha2
+          simp only [Array.getElem?_setIfInBounds]
+          by_cases hai : a = i
+          · subst hai
+            refine ⟨hp0, ?_⟩
+            have hxa : x[a]? = x0[a]? := q3 a (by omega)
+            have e1 : x[a] = x0[a]?.getD 0 := by
+              rw [← hxa]; simp [hix]
+            have e2 : ∀ k ∈ Finset.Ico 1 (min (n - a) mm),
+                e a k * (if a = k + a then
+                  (if a < x.size then some ((x[a] - ∑ k ∈ Finset.Ico 1 l,
+                    e a k * x[k + a]?.getD 0) / e a 0)
+                  else none) else x[k + a]?).getD 0
+                = e a k * x[k + a]?.getD 0 := by
+              intro k hk
+              rw [Finset.mem_Ico] at hk
+              rw [if_neg (by omega)]
+            rw [Finset.sum_congr rfl e2, if_pos rfl, if_pos hix, Option.getD_some, hl, e1]
+            field_simp
+            ring
+          · have e2 : ∀ k ∈ Finset.Ico 1 (min (n - a) mm),
+                e a k * (if i = k + a then
+                  (if i < x.size then some ((x[i] - ∑ k ∈ Finset.Ico 1 l,
+                    e i k * x[k + i]?.getD 0) / e i 0)
+                  else none) else x[k + a]?).getD 0
+                = e a k * x[k + a]?.getD 0 := by
+              intro k hk
+              rw [if_neg (by omega)]
+            rw [Finset.sum_congr rfl e2, if_neg (fun e => hai e.symm)]
+            exact q4 a (by omega) ha2) h
+  obtain ⟨q1, _, _, q4⟩ := hQ
+  exact ⟨q1, fun a ha => q4 a (Nat.zero_le _) ha⟩
+
+/-- a row of the final upper factor, as a dense row sum -/
+theorem twin_final_row {n m1 mm : Nat} (e : Nat → Nat → F) {i : Nat} (hi : i < n) (hmm : 0 < mm)
+    (X : Nat → F) :
+    ∑ c ∈ Finset.range n, twin m1 mm n n e i c * X c =
+      e i 0 * X i + ∑ t ∈ Finset.Ico 1 (min (n - i) mm), e i t * X (t + i) := by
+  have o : off m1 n n i = i := by unfold off; rw [if_pos hi]
+  have hL : 0 < min (n - i) mm := by omega
+  have e1 : ∑ c ∈ Finset.range n, twin m1 mm n n e i c * X c =
+      ∑ c ∈ Finset.Ico i (i + min (n - i) mm), twin m1 mm n n e i c * X c := by
+    symm
+    apply Finset.sum_subset
+    · intro j hj
+      rw [Finset.mem_Ico] at hj
+      rw [Finset.mem_range]; omega
+    · intro j hj hnj
+      rw [Finset.mem_range] at hj
+      rw [Finset.mem_Ico] at hnj
+      unfold twin
+      rw [o, if_neg (by omega), zero_mul]
+  have e2 : ∀ t, t < min (n - i) mm → twin m1 mm n n e i (i + t) = e i t := by
+    intro t ht
+    unfold twin
+    rw [o, if_pos (by omega), Nat.add_sub_cancel_left]
+  rw [e1, Finset.sum_Ico_eq_sum_range, Nat.add_sub_cancel_left, Finset.range_eq_Ico,
+    Finset.sum_eq_sum_Ico_succ_bot hL, Nat.add_zero]
+  have e0 := e2 0 hL
+  rw [Nat.add_zero] at e0
+  rw [e0]
+  congr 1
+  apply Finset.sum_congr rfl
+  intro t ht
+  rw [Finset.mem_Ico] at ht
+  rw [e2 t ht.2, Nat.add_comm i t]
+
+/-- (E) **soundness of the banded solver** (`bandec` + `banbks`, any `(n, m1, m2)`): every
+    vector returned by `solve` solves the dense system `Σ_j dense b i j * x[j] = rhs[i]` -/
+theorem solve_sound {b : Band F} (h : WFb b) {rhs x : Array F}
+    (hs : solve b rhs = .ok x) :
+    x.size = b.n ∧ ∀ i, i < b.n →
+      ∑ j ∈ Finset.range b.n, dense b i j * x[j]?.getD 0 = rhs[i]?.getD 0 := by
+  by_cases hm : b.m1 ≤ b.n
+  swap
+  · exfalso
+    by_cases hr : rhs.size = b.n
+    · rw [solve_rejects_m1 h (by omega) rhs hr] at hs; cases hs
+    · unfold solve at hs
+      rw [if_pos (fun e => hr e.symm)] at hs; cases hs
+  obtain ⟨s, l, hdec, hl, hau, hal, hsz, hidx, hgb⟩ := decompose_inv h hm
+  simp only at hl hau hal hsz hidx hgb
+  unfold solve at hs
+  by_cases hn : b.n ≠ rhs.size
+  · rw [if_pos hn] at hs; cases hs
+  rw [if_neg hn] at hs
+  have hr : rhs.size = b.n := by omega
+  obtain ⟨s', hs1, hs⟩ := bind_eq_ok hs
+  rw [hdec] at hs1
+  injection hs1 with hs1
+  subst hs1
+  obtain ⟨st, hs2, hs⟩ := bind_eq_ok hs
+  obtain ⟨st0, hf1, hf2, hf3⟩ := solve_fwd_spec hal hsz hidx hm rhs hr
+  rw [hf1] at hs2
+  injection hs2 with hs2
+  subst hs2
+  obtain ⟨xf, lf⟩ := st0
+  simp only at hs hf2 hf3
+  obtain ⟨st, hs3, hs⟩ := bind_eq_ok hs
+  injection hs with hs
+  subst hs
+  obtain ⟨hsize, hrows⟩ := back_spec hau (by omega) xf hf2 hs3
+  refine ⟨hsize, ?_⟩
+  rcases hgb with ⟨k', hk', hz⟩ | hgood
+  · exact absurd hz (hrows k' hk').1
+  · refine hgood (fun a => rhs[a]?.getD 0) (fun a => st.1[a]?.getD 0) ?_
+    intro i hi
+    have e1 : min (b.m1 + b.n) b.n = b.n := by omega
+    rw [e1, twin_final_row _ hi (by omega), (hrows i hi).2, hf3 i]
+end FullLU
+
+/-! ### padding slots are never read by `decompose` / `det` / `solve` (class (S)): two runs in
+    lock-step -/
+section Padding
+variable [Add K] [Sub K] [Mul K] [Neg K] [Zero K] [One K] [BEq K] [ScalarExt K]
+open Mat (forM'_rel)
+
+/-- the two compact matrices are well formed and agree on every slot that lies inside the matrix
+    (`o i` is the matrix column of slot 0 of row `i`) -/
+def PadEq (n mm : Nat) (o : Nat → Nat) (ma mb : Mat K) : Prop :=
+  ∃ ea eb, Is ma n mm ea ∧ Is mb n mm eb ∧
+    ∀ i t, i < n → t < mm → o i + t < n → ea i t = eb i t
+
+theorem PadEq.congr_off {n mm : Nat} {o o' : Nat → Nat} {ma mb : Mat K} (h : PadEq n mm o ma mb)
+    (ho : ∀ i, i < n → o' i = o i) : PadEq n mm o' ma mb := by
+  obtain ⟨ea, eb, h1, h2, h3⟩ := h
+  exact ⟨ea, eb, h1, h2, fun i t hi ht hc => h3 i t hi ht (by rw [← ho i hi]; exact hc)⟩
+
+theorem elim_innerS {au : Mat K} {n mm : Nat} {e : Nat → Nat → K} (hau : Is au n mm e) {k i : Nat}
+    (hk : k < n) (hi : i < n) (hki : k ≠ i) (dum : K) :
+    ∃ au', forM' 1 mm au (fun au j => do
+        let x ← au.get i j
+        let y ← au.get k j
+        au.set i (j - 1) (x - dum * y)) = .ok au' ∧
+      Is au' n mm (fun a b => if a = i ∧ b + 1 < mm then e i (b + 1) - dum * e k (b + 1) else e a b) := by
+  by_cases hmm : 1 ≤ mm
+  · refine forM'_inv (fun t (s : Mat K) => Is s n mm
+      (fun a b => if a = i ∧ b + 1 < t then e i (b + 1) - dum * e k (b + 1) else e a b))
+      1 mm au _ hmm (hau.congr (fun a b _ _ => by ifs_omega)) ?_
+    intro t s ht1 ht2 hs
+    have g1 := hs.get hi ht2
+    have g2 := hs.get hk ht2
+    rw [if_neg (by omega)] at g1 g2
+    obtain ⟨s', hs', hI⟩ := hs.set hi (show t - 1 < mm by omega) (e i t - dum * e k t)
+    refine ⟨s', by simp only [g1, g2, bind, Except.bind]; exact hs', hI.congr ?_⟩
+    intro a b _ _
+    by_cases hab : a = i ∧ b = t - 1
+    · obtain ⟨rfl, rfl⟩ := hab
+      have e1 : t - 1 + 1 = t := by omega
+      simp [e1]
+    · rw [if_neg hab]
+      ifs_omega
+  · have : mm = 0 := by omega
+    subst this
+    exact ⟨au, Mat.forM'_empty _ _ _ _ (by omega), hau.congr (fun a b _ hb => by omega)⟩
+
+/-- multiplier as the code computes it: zero for a zero pivot, else the checked division -/
+def dumR (a p : K) : Res K := if p == 0 then pure 0 else divM a p
+
+/-- the tail of `decElim` once the multiplier is known -/
+def elimTail (mm k i : Nat) (au al : Mat K) (dum : K) : Res (Mat K × Mat K) := do
+  let al ← al.set k (i - k - 1) dum
+  let au ← forM' 1 mm au (fun au j => do
+    let x ← au.get i j
+    let y ← au.get k j
+    au.set i (j - 1) (x - dum * y))
+  let au ← au.set i (mm - 1) 0
+  pure (au, al)
+
+theorem decElim_eq (mm k i : Nat) (au al : Mat K) :
+    decElim mm k (au, al) i = (do
+      let a ← au.get i 0
+      let p ← au.get k 0
+      let dum ← dumR a p
+      elimTail mm k i au al dum) := by
+  unfold decElim dumR
+  simp only [bind, Except.bind]
+  cases au.get i 0 with
+  | error e => rfl
+  | ok a =>
+    cases au.get k 0 with
+    | error e => rfl
+    | ok p =>
+      simp only
+      split <;> rfl
+
+theorem elimTail_spec {au al : Mat K} {n mm m1 : Nat} {e ea : Nat → Nat → K}
+    (hau : Is au n mm e) (hal : Is al n m1 ea) {k i : Nat} (hk : k < n) (hi : i < n) (hki : k < i)
+    (him : i - k - 1 < m1) (hmm : 0 < mm) (dum : K) :
+    ∃ au' al', elimTail mm k i au al dum = .ok (au', al') ∧
+      al.set k (i - k - 1) dum = .ok al' ∧
+      Is au' n mm (fun a b => if a = i then
+        (if b + 1 < mm then e i (b + 1) - dum * e k (b + 1) else 0) else e a b) ∧
+      Is al' n m1 (fun a b => if a = k ∧ b = i - k - 1 then dum else ea a b) := by
+  obtain ⟨al', ha', hIa⟩ := hal.set hk him dum
+  obtain ⟨a1, h1, hI1⟩ := elim_innerS hau hk hi (by omega) dum
+  obtain ⟨a2, h2, hI2⟩ := hI1.set hi (show mm - 1 < mm by omega) (0 : K)
+  refine ⟨a2, al', ?_, ha', hI2.congr (fun a b _ _ => by ifs_omega), hIa⟩
+  unfold elimTail
+  simp only [bind, Except.bind, pure, Except.pure] at h1 ⊢
+  simp only [ha', h1, h2]
+
+theorem decElim_rel {aua aub al : Mat K} {n mm m1 : Nat} {o : Nat → Nat} {ea : Nat → Nat → K}
+    (hp : PadEq n mm o aua aub) (hal : Is al n m1 ea) {k i : Nat} (hk : k < n) (hi : i < n)
+    (hki : k < i) (him : i - k - 1 < m1) (hmm : 0 < mm) (hok : o k = k) (hoi : o i = k) :
+    RelRes (fun sa sb => sa.2 = sb.2 ∧ (∃ ea', Is sa.2 n m1 ea') ∧
+        PadEq n mm (fun a => if a = i then k + 1 else o a) sa.1 sb.1)
+      (decElim mm k (aua, al) i) (decElim mm k (aub, al) i) := by
+  obtain ⟨e1, e2, h1, h2, hag⟩ := hp
+  have q1 : e1 i 0 = e2 i 0 := hag i 0 hi hmm (by omega)
+  have q2 : e1 k 0 = e2 k 0 := hag k 0 hk hmm (by omega)
+  rw [decElim_eq, decElim_eq, h1.get hi hmm, h1.get hk hmm, h2.get hi hmm, h2.get hk hmm, q1, q2]
+  show RelRes _ (dumR (e2 i 0) (e2 k 0) >>= _) (dumR (e2 i 0) (e2 k 0) >>= _)
+  refine RelRes.bind (RelRes.refl _) ?_
+  intro dum dum' hd
+  subst hd
+  obtain ⟨a1, l1, t1, s1, I1, J1⟩ := elimTail_spec h1 hal hk hi hki him hmm dum
+  obtain ⟨a2, l2, t2, s2, I2, J2⟩ := elimTail_spec h2 hal hk hi hki him hmm dum
+  rw [t1, t2]
+  have : l1 = l2 := by rw [s1] at s2; injection s2
+  subst this
+  refine ⟨rfl, ⟨_, J1⟩, _, _, I1, I2, ?_⟩
+  intro a t ha ht hc
+  by_cases hai : a = i
+  · subst hai
+    simp only [if_true] at hc ⊢
+    by_cases hb : t + 1 < mm
+    · rw [if_pos hb, if_pos hb, hag a (t + 1) ha hb (by omega), hag k (t + 1) hk hb (by omega)]
+    · rw [if_neg hb, if_neg hb]
+  · simp only [hai, if_false] at hc ⊢
+    exact hag a t ha ht hc
+
+theorem elimLoop_rel {aua aub al : Mat K} {n mm m1 : Nat} {o : Nat → Nat} {ea : Nat → Nat → K}
+    (hp : PadEq n mm o aua aub) (hal : Is al n m1 ea) {k l : Nat} (hk : k < n) (hkl : k + 1 ≤ l)
+    (hln : l ≤ n) (hlm : l ≤ k + m1 + 1) (hmm : 0 < mm) (ho : ∀ a, k ≤ a → a < l → o a = k) :
+    RelRes (fun sa sb => sa.2 = sb.2 ∧ (∃ ea', Is sa.2 n m1 ea') ∧
+        PadEq n mm (fun a => if k < a ∧ a < l then k + 1 else o a) sa.1 sb.1)
+      (forM' (k + 1) l (aua, al) (decElim mm k)) (forM' (k + 1) l (aub, al) (decElim mm k)) := by
+  refine forM'_rel (fun t (sa sb : Mat K × Mat K) => sa.2 = sb.2 ∧ (∃ ea', Is sa.2 n m1 ea') ∧
+        PadEq n mm (fun a => if k < a ∧ a < t then k + 1 else o a) sa.1 sb.1)
+    (k + 1) l _ _ _ _ hkl ⟨rfl, ⟨_, hal⟩, hp.congr_off (fun a _ => by rw [if_neg (by omega)])⟩ ?_
+  intro t sa sb ht1 ht2 ⟨h1, ⟨ea', h2⟩, h3⟩
+  obtain ⟨a1, l1⟩ := sa
+  obtain ⟨a2, l2⟩ := sb
+  simp only at h1 h2 h3
+  subst h1
+  refine (decElim_rel h3 h2 hk (show t < n by omega) (by omega) (by omega) hmm ?_ ?_).mono ?_
+  · show (if k < k ∧ k < t then k + 1 else o k) = k
+    rw [if_neg (by omega)]; exact ho k (Nat.le_refl _) (by omega)
+  · show (if k < t ∧ t < t then k + 1 else o t) = k
+    rw [if_neg (by omega)]; exact ho t (by omega) ht2
+  · intro sa sb ⟨g1, g2, g3⟩
+    refine ⟨g1, g2, g3.congr_off ?_⟩
+    intro a _
+    ifs_omega
+
+/-- body of the pivot search -/
+def pivBody (au : Mat K) (st : K × Nat) (j : Nat) : Res (K × Nat) := do
+  let x ← au.get j 0
+  if ScalarExt.lt (ScalarExt.mag st.1) (ScalarExt.mag x) then pure (x, j) else pure (st.1, st.2)
+
+theorem decStep_eq (n mm : Nat) (s : Dec K) (l k : Nat) :
+    decStep n mm (s, l) k = (do
+      let dum0 ← s.au.get k 0
+      let pr ← forM' (k + 1) (if l < n then l + 1 else l) (dum0, k) (pivBody s.au)
+      let index ← aset s.index k (pr.2 + 1)
+      let au ← (if pr.1 == 0 then s.au.set k 0 0 else pure s.au)
+      let aud ← (if pr.2 ≠ k then (do
+          let au ← forM' 0 mm au (fun au j => Mat.swapElem au k j pr.2 j)
+          pure (au, -s.d)) else pure (au, s.d))
+      let r ← forM' (k + 1) (if l < n then l + 1 else l) (aud.1, s.al) (decElim mm k)
+      pure (⟨r.1, r.2, index, aud.2⟩, if l < n then l + 1 else l)) := by
+  have hpiv : (fun (x : K × Nat) (j : Nat) => (match x with
+      | (dum, i) => do
+        let x ← s.au.get j 0
+        if ScalarExt.lt (ScalarExt.mag dum) (ScalarExt.mag x) then pure (x, j) else pure (dum, i)
+      : Res (K × Nat))) = pivBody s.au := by
+    funext x j
+    obtain ⟨d, i⟩ := x
+    rfl
+  unfold decStep
+  simp only [hpiv]
+  simp only [bind, Except.bind, pure, Except.pure]
+  cases s.au.get k 0 with
+  | error e => rfl
+  | ok dum0 =>
+    simp only
+    cases forM' (k + 1) (if l < n then l + 1 else l) (dum0, k) (pivBody s.au) with
+    | error e => rfl
+    | ok pr =>
+      obtain ⟨d, ip⟩ := pr
+      simp only
+      cases aset s.index k (ip + 1) with
+      | error e => rfl
+      | ok index =>
+        simp only
+        by_cases hz : (d == 0) = true <;> by_cases hik : ip ≠ k
+        · simp only [if_pos hz, if_pos hik]
+          cases s.au.set k 0 0 with
+          | error e => rfl
+          | ok v =>
+            simp only
+            cases forM' 0 mm v (fun au j => au.swapElem k j ip j) with
+            | error e => rfl
+            | ok v => rfl
+        · simp only [if_pos hz, if_neg hik]
+        · simp only [if_neg hz, if_pos hik]
+          cases forM' 0 mm s.au (fun au j => au.swapElem k j ip j) with
+          | error e => rfl
+          | ok v => rfl
+        · simp only [if_neg hz, if_neg hik]
+
+theorem pivotLoop_rel {aua aub : Mat K} {n mm : Nat} {o : Nat → Nat} (hp : PadEq n mm o aua aub)
+    {k l : Nat} (hkl : k + 1 ≤ l) (hln : l ≤ n) (hmm : 0 < mm)
+    (ho : ∀ a, k ≤ a → a < l → o a = k) (d0 : K) :
+    RelRes (fun ra rb => ra = rb ∧ k ≤ ra.2 ∧ ra.2 < l)
+      (forM' (k + 1) l (d0, k) (pivBody aua)) (forM' (k + 1) l (d0, k) (pivBody aub)) := by
+  obtain ⟨e1, e2, h1, h2, hag⟩ := hp
+  refine forM'_rel (fun t (ra rb : K × Nat) => ra = rb ∧ k ≤ ra.2 ∧ ra.2 < t) (k + 1) l _ _ _ _ hkl
+    ⟨rfl, Nat.le_refl _, by simp⟩ ?_
+  intro t ra rb ht1 ht2 ⟨q1, q2, q3⟩
+  subst q1
+  have g1 := h1.get (show t < n by omega) hmm
+  have g2 := h2.get (show t < n by omega) hmm
+  have q : e1 t 0 = e2 t 0 := hag t 0 (by omega) hmm (by rw [ho t (by omega) ht2]; omega)
+  unfold pivBody
+  simp only [g1, g2, q, bind, Except.bind, pure, Except.pure]
+  split
+  · exact ⟨rfl, by simp only; omega, by simp only; omega⟩
+  · exact ⟨rfl, q2, by simp only; omega⟩
+
+theorem PadEq.set {n mm : Nat} {o : Nat → Nat} {ma mb : Mat K} (h : PadEq n mm o ma mb)
+    {i j : Nat} (hi : i < n) (hj : j < mm) (v : K) :
+    RelRes (PadEq n mm o) (ma.set i j v) (mb.set i j v) := by
+  obtain ⟨e1, e2, h1, h2, hag⟩ := h
+  obtain ⟨m1', g1, I1⟩ := h1.set hi hj v
+  obtain ⟨m2', g2, I2⟩ := h2.set hi hj v
+  rw [g1, g2]
+  refine ⟨_, _, I1, I2, ?_⟩
+  intro a t ha ht hc
+  by_cases hc' : a = i ∧ t = j
+  · simp only [hc', and_self, if_true]
+  · simp only [hc', if_false]; exact hag a t ha ht hc
+
+theorem PadEq.swap {n mm : Nat} {o : Nat → Nat} {ma mb : Mat K} (h : PadEq n mm o ma mb)
+    {k ip : Nat} (hk : k < n) (hip : ip < n) (hoo : o k = o ip) :
+    RelRes (PadEq n mm o) (forM' 0 mm ma (fun au j => Mat.swapElem au k j ip j))
+      (forM' 0 mm mb (fun au j => Mat.swapElem au k j ip j)) := by
+  obtain ⟨e1, e2, h1, h2, hag⟩ := h
+  have hg : ¬ (n ≤ k ∨ n ≤ ip) := by omega
+  have s1 := Mat.swapRows_spec h1 hk hip
+  have s2 := Mat.swapRows_spec h2 hk hip
+  simp only [Mat.swapRows, h1.rows, h1.cols, h2.rows, h2.cols, hg, if_false] at s1 s2
+  obtain ⟨m1', g1, I1⟩ := s1
+  obtain ⟨m2', g2, I2⟩ := s2
+  rw [g1, g2]
+  refine ⟨_, _, I1, I2, ?_⟩
+  intro a t ha ht hc
+  by_cases hak : a = k
+  · subst hak
+    simp only [if_true]
+    exact hag ip t hip ht (by omega)
+  · by_cases hai : a = ip
+    · subst hai
+      simp only [hak, if_false, if_true]
+      exact hag k t hk ht (by omega)
+    · simp only [hak, hai, if_false]
+      exact hag a t ha ht hc
+
+theorem off_window {n m1 k a : Nat} (h1 : k ≤ a) (h2 : a < min (m1 + k + 1) n) :
+    off m1 k (min (m1 + k) n) a = k := by
+  unfold off
+  rw [if_neg (by omega)]
+  split <;> omega
+
+theorem off_step {n m1 k a : Nat} (hk : k < n) (ha : a < n) :
+    off m1 (k + 1) (min (m1 + k + 1) n) a =
+      if k < a ∧ a < min (m1 + k + 1) n then k + 1 else off m1 k (min (m1 + k) n) a := by
+  unfold off
+  ifs_omega
+
+/-- the two pivot-loop states of `decompose` are in lock-step before step `k` -/
+def RelDec (n m1 mm k : Nat) (sa sb : Dec K × Nat) : Prop :=
+  sa.2 = sb.2 ∧ sa.2 = min (m1 + k) n ∧ sa.1.al = sb.1.al ∧ sa.1.index = sb.1.index ∧
+  sa.1.d = sb.1.d ∧ (∃ ea, Is sa.1.al n m1 ea) ∧ sa.1.index.size = n ∧
+  PadEq n mm (off m1 k sa.2) sa.1.au sb.1.au
+
+theorem decStep_rel {n m1 mm k : Nat} (hk : k < n) (hmm : 0 < mm) {sa sb : Dec K × Nat}
+    (h : RelDec n m1 mm k sa sb) :
+    RelRes (RelDec n m1 mm (k + 1)) (decStep n mm sa k) (decStep n mm sb k) := by
+  obtain ⟨sa, la⟩ := sa
+  obtain ⟨sb, lb⟩ := sb
+  obtain ⟨r1, r2, r3, r4, r5, ⟨ea, r6⟩, r7, r8⟩ := h
+  simp only at r1 r2 r3 r4 r5 r6 r7 r8
+  subst r1
+  have hl' : (if la < n then la + 1 else la) = min (m1 + k + 1) n := by split <;> omega
+  rw [decStep_eq, decStep_eq, hl', ← r3, ← r4, ← r5]
+  rw [r2] at r8
+  have how : ∀ a, k ≤ a → a < min (m1 + k + 1) n → off m1 k (min (m1 + k) n) a = k :=
+    fun a h1 h2 => off_window h1 h2
+  obtain ⟨e1, e2, h1, h2, hag⟩ := id r8
+  have q0 : e1 k 0 = e2 k 0 := hag k 0 hk hmm (by rw [how k (Nat.le_refl _) (by omega)]; omega)
+  rw [h1.get hk hmm, h2.get hk hmm, q0]
+  show RelRes _ (forM' _ _ _ _ >>= _) (forM' _ _ _ _ >>= _)
+  refine RelRes.bind (pivotLoop_rel r8 (by omega) (by omega) hmm how (e2 k 0)) ?_
+  rintro ⟨d, ip⟩ rb ⟨rfl, hip1, hip2⟩
+  simp only at hip1 hip2 ⊢
+  refine RelRes.bind (R := fun a b => a = b ∧ a.size = n) ?_ ?_
+  · rw [aset_ok _ (show k < sa.index.size by omega)]
+    exact ⟨rfl, by simpa using r7⟩
+  rintro index _ ⟨rfl, hisz⟩
+  -- zero fix
+  refine RelRes.bind (R := PadEq n mm (off m1 k (min (m1 + k) n))) ?_ ?_
+  · split
+    · exact r8.set hk hmm 0
+    · exact r8
+  intro au0a au0b hp0
+  -- exchange
+  refine RelRes.bind (R := fun pa pb => pa.2 = pb.2 ∧
+      PadEq n mm (off m1 k (min (m1 + k) n)) pa.1 pb.1) ?_ ?_
+  · split
+    · refine RelRes.bind (hp0.swap hk (by omega) ?_) ?_
+      · rw [how k (Nat.le_refl _) (by omega), how ip hip1 hip2]
+      · intro a b hab; exact ⟨rfl, hab⟩
+    · exact ⟨rfl, hp0⟩
+  rintro ⟨au1a, da⟩ ⟨au1b, db⟩ ⟨hd, hp1⟩
+  simp only at hd hp1 ⊢
+  subst hd
+  -- elimination
+  refine RelRes.bind (elimLoop_rel hp1 r6 hk (by omega) (by omega) (by omega) hmm how) ?_
+  rintro ⟨au2a, al2a⟩ ⟨au2b, al2b⟩ ⟨hal, hea, hp2⟩
+  simp only at hal hea hp2 ⊢
+  subst hal
+  refine ⟨rfl, by simp only; omega, rfl, rfl, rfl, hea, hisz, ?_⟩
+  exact hp2.congr_off (fun a ha => off_step hk ha)
+
+/-- two banded matrices of the same shape agree on all in-band, in-matrix slots -/
+def DenseEq (a b : Band K) : Prop :=
+  SameShape a b ∧ ∀ i j, inBand a i j → i < a.n → j < a.n → dense a i j = dense b i j
+
+/-- (S) **`decompose` in lock-step**: on two well-formed banded matrices that differ only in
+    padding slots, `decompose` either panics identically or returns the same multipliers,
+    exchange record and sign, and upper factors that agree on every in-matrix slot -/
+theorem decompose_rel {a b : Band K} (ha : WFb a) (hb : WFb b) (h : DenseEq a b) :
+    RelRes (fun sa sb => sa.al = sb.al ∧ sa.index = sb.index ∧ sa.d = sb.d ∧
+        PadEq a.n (a.m1 + a.m2 + 1) (fun i => i) sa.au sb.au) (decompose a) (decompose b) := by
+  obtain ⟨⟨s1, s2, s3⟩, hag⟩ := h
+  by_cases hm : a.m1 ≤ a.n
+  swap
+  · rw [decompose_rejects ha (by omega), decompose_rejects hb (by omega)]
+    rfl
+  obtain ⟨au0a, g1, I1⟩ := shiftRows_spec ha.is hm
+  obtain ⟨au0b, g2, I2⟩ := shiftRows_spec hb.is (by omega)
+  unfold decompose
+  rw [g1, g2, ← s1, ← s2, ← s3]
+  rw [← s1, ← s2, ← s3] at I2
+  show RelRes _ (forM' _ _ _ _ >>= _) (forM' _ _ _ _ >>= _)
+  have hp0 : PadEq a.n (a.m1 + a.m2 + 1) (off a.m1 0 a.m1) au0a au0b := by
+    refine ⟨_, _, I1, I2, ?_⟩
+    intro i t hi ht hc
+    have o : off a.m1 0 a.m1 i = i - a.m1 := by
+      unfold off
+      rw [if_neg (by omega)]
+      split
+      · omega
+      · rfl
+    rw [o] at hc
+    by_cases hts : t + (a.m1 - i) < a.m1 + a.m2 + 1
+    · have e1 := shifted_dense ha hi hts hc
+      have e2 := shifted_dense hb (i := i) (t := t) (by omega) (by omega) (by omega)
+      rw [← s2, ← s3] at e2
+      rw [e1, e2]
+      exact hag i _ (by unfold inBand; omega) hi hc
+    · unfold shifted
+      rw [if_pos (by omega), if_neg hts, if_pos (by omega), if_neg hts]
+  refine RelRes.bind (forM'_rel (RelDec a.n a.m1 (a.m1 + a.m2 + 1)) 0 a.n _ _ _ _ (Nat.zero_le _)
+    ⟨rfl, by simp only; omega, rfl, rfl, rfl, ⟨_, Mat.Is.of_new a.n a.m1 (0 : K)⟩, by simp, hp0⟩
+    (fun k sa sb _ hk hr => decStep_rel hk (by omega) hr)) ?_
+  rintro ⟨sa, la⟩ ⟨sb, lb⟩ ⟨r1, r2, r3, r4, r5, _, _, r8⟩
+  simp only at r1 r2 r3 r4 r5 r8
+  refine ⟨r3, r4, r5, r8.congr_off ?_⟩
+  intro i hi
+  unfold off
+  rw [if_pos hi]
+
+/-- (S) **`det` never reads padding**: same value or same panic on two banded matrices that
+    differ only in padding slots -/
+theorem det_padding {a b : Band K} (ha : WFb a) (hb : WFb b) (h : DenseEq a b) :
+    det a = det b := by
+  apply RelRes.eq
+  unfold det
+  refine RelRes.bind (decompose_rel ha hb h) ?_
+  rintro sa sb ⟨_, _, r3, e1, e2, h1, h2, hag⟩
+  rw [← h.1.1, r3]
+  refine forM'_rel (fun _ (x y : K) => x = y) 0 a.n _ _ _ _ (Nat.zero_le _) rfl ?_
+  intro i x y _ hi hxy
+  subst hxy
+  have hmm : 0 < a.m1 + a.m2 + 1 := by omega
+  rw [h1.get hi hmm, h2.get hi hmm, hag i 0 hi hmm (by omega)]
+  exact RelRes.refl _
+
+/-- (S) **`solve` never reads padding**: same solution or same panic -/
+theorem solve_padding {a b : Band K} (ha : WFb a) (hb : WFb b) (h : DenseEq a b)
+    (rhs : Array K) : solve a rhs = solve b rhs := by
+  apply RelRes.eq
+  obtain ⟨s1, s2, s3⟩ := h.1
+  unfold solve
+  rw [← s1, ← s2, ← s3]
+  split
+  · rfl
+  refine RelRes.bind (decompose_rel ha hb h) ?_
+  rintro sa sb ⟨r1, r2, r3, e1, e2, h1, h2, hag⟩
+  rw [← r1, ← r2]
+  simp only
+  refine RelRes.bind (RelRes.refl _) ?_
+  rintro ⟨x, l⟩ _ rfl
+  simp only
+  have hmm : 0 < a.m1 + a.m2 + 1 := by omega
+  refine RelRes.bind (R := fun p q => p = q) ?_ ?_
+  swap
+  · rintro p _ rfl; exact RelRes.refl _
+  refine (foldlM_rev_rel (fun j (p q : Array K × Nat) => p = q ∧
+      p.2 = min (a.n - j + 1) (a.m1 + a.m2 + 1)) _ _ a.n (x, 1) (x, 1) ⟨rfl, by simp only; omega⟩ ?_).mono
+    (fun _ _ hpq => hpq.1)
+  rintro i ⟨y, l⟩ _ hi ⟨rfl, hl⟩
+  simp only at hl ⊢
+  refine RelRes.bind (RelRes.refl _) ?_
+  rintro xi _ rfl
+  refine RelRes.bind (R := fun p q => p = q) ?_ ?_
+  · refine forM'_rel (fun _ (p q : K) => p = q) 1 l _ _ _ _ (by omega) rfl ?_
+    rintro k d _ hk1 hk2 rfl
+    rw [h1.get hi (show k < a.m1 + a.m2 + 1 by omega), h2.get hi (show k < a.m1 + a.m2 + 1 by omega),
+      hag i k hi (by omega) (by show i + k < a.n; omega)]
+    exact RelRes.refl _
+  rintro dum _ rfl
+  rw [h1.get hi hmm, h2.get hi hmm, hag i 0 hi hmm (by omega)]
+  refine RelRes.bind (RelRes.refl _) ?_
+  rintro p _ rfl
+  refine RelRes.bind (RelRes.refl _) ?_
+  rintro q _ rfl
+  refine RelRes.bind (RelRes.refl _) ?_
+  rintro y' _ rfl
+  exact ⟨rfl, by simp only; split <;> omega⟩
+
+end Padding
 
 end Band
 end Ohsl
